@@ -52,7 +52,7 @@ impl SingleExecMatcher {
 }
 
 impl Matcher for SingleExecMatcher {
-    fn matches(&self, file_info: &WalkEntry, _: &mut MatcherIO) -> bool {
+    fn matches(&self, file_info: &WalkEntry, matcher_io: &mut MatcherIO) -> bool {
         let mut command = Command::new(&self.executable);
         let path_to_file = if self.exec_in_parent_dir {
             // Not Path::file_name(): it is None for a path ending in `..`, whose
@@ -86,6 +86,8 @@ impl Matcher for SingleExecMatcher {
                 }
             }
         }
+        // What has been printed so far must reach stdout before the command's output does.
+        matcher_io.deps.get_output().borrow_mut().flush().ok();
         match command.status() {
             Ok(status) => status.success(),
             Err(e) => {
@@ -131,6 +133,8 @@ impl MultiExecMatcher {
     }
 
     fn run_command(&self, command: &mut argmax::Command, matcher_io: &mut MatcherIO) {
+        // What has been printed so far must reach stdout before the command's output does.
+        matcher_io.deps.get_output().borrow_mut().flush().ok();
         match command.status() {
             Ok(status) => {
                 if !status.success() {
